@@ -139,7 +139,7 @@ type c10haWorld struct {
 	log           []string
 	ctx           context.Context
 
-	nRekey, nFailover, nRootRot, nKeyring, nRestart, nUnseal int
+	nRekey, nFailover, nRootRot, nKeyring, nRestart, nUnseal, nRecovery int
 	staleLeader                                             bool // leadership went to a node that is stale
 	chain                                                   bool // ... and that node then rotated the root key without shares
 }
@@ -458,6 +458,58 @@ func (w *c10haWorld) rekey(flavour string, shares, thr int) {
 	w.rekeyDone()
 }
 
+// rotateRecovery replaces the recovery shares of the stored-key seal (they authorise the rekey of the barrier); the
+// superseded recovery shares must not authorise anything afterwards.
+func (w *c10haWorld) rotateRecovery(shares, thr int) {
+	c := w.act().c
+	sm := c.sealManager
+	ns := namespace.RootNamespace
+	auth := w.authShares("recoveryShareOffset")
+	_ = sm.CancelRotation(w.ctx, ns.UUID, true)
+	if _, err := sm.InitRotation(w.ctx, ns, &SealConfig{SecretShares: shares, SecretThreshold: thr}, true); err != nil {
+		w.t.Fatalf("harness: recovery rotation init: %v; history %v", err, w.log)
+	}
+	rc := sm.RotationConfig(ns.UUID, true)
+	if rc == nil {
+		w.t.Fatalf("harness: no recovery rotation config after init")
+	}
+	var res *RekeyResult
+	for j, k := range auth {
+		var err error
+		if res, err = sm.UpdateRotation(w.ctx, ns, TestKeyCopy(k), rc.Nonce, true); err != nil {
+			w.logf("rotation of the recovery shares to %d/%d via node%d: update %d refused", thr, shares, w.active, j+1)
+			w.viol("valid-shares-rejected:recovery-rotation", map[string]any{"error": err.Error()}, "the currently valid recovery shares were refused by a rotation of the recovery shares on active node %d: %v", w.active, err)
+		}
+	}
+	if res == nil || len(res.SecretShares) != shares {
+		w.t.Fatalf("harness: recovery rotation did not hand out %d shares: %+v", shares, res)
+	}
+	old := w.recKeys[:w.recThr]
+	w.recKeys, w.recThr = res.SecretShares, thr
+	w.logf("rotation of the recovery shares to %d/%d via node%d", thr, shares, w.active)
+	w.nRecovery++
+	// the superseded recovery shares authorise no rekey
+	_ = c.RekeyCancel(false)
+	if herr := c.BarrierRekeyInit(&SealConfig{}); herr != nil {
+		w.t.Fatalf("harness: rekey init (probe with superseded recovery shares): %v", herr)
+	}
+	prc, herr := c.RekeyConfig(false)
+	if herr != nil || prc == nil {
+		w.t.Fatalf("harness: rekey config (probe): %v", herr)
+	}
+	for _, k := range old {
+		pres, herr := c.BarrierRekeyUpdate(w.ctx, TestKeyCopy(k), prc.Nonce)
+		if herr != nil {
+			break
+		}
+		if pres != nil {
+			w.logf("superseded recovery shares authorised a rekey")
+			w.viol("superseded-recovery-shares-authorise-rekey", nil, "after the rotation of the recovery shares the superseded shares still authorised a rekey of the barrier on node %d", w.active)
+		}
+	}
+	_ = c.RekeyCancel(false)
+}
+
 func (w *c10haWorld) rekeyDone() {
 	w.nRekey++
 	for i, n := range w.nodes {
@@ -634,7 +686,7 @@ func (w *c10haWorld) restartAll(when string) {
 }
 
 func TestVerif_C10_HARotation(t *testing.T) {
-	rec := verifx.NewRecorder("C10", "ha-rotation", "2 or 3 cores on one in-memory store and one in-memory HA lock (Shamir seal with generated shares/threshold, or the stored-key test seal); generated history of canary write / keyring rotation / share-based rekey (legacy or seal-manager, plain, verified, or verification abandoned) / share-less root-key rotation on the active node, step-down or seal of the active node (leadership moves to a generated standby), stop of a standby (the API refuses to seal one), unseal of a sealed node in place or as a new process, restart of the whole cluster; always ends with a restart of the whole cluster and a tour of the leadership through every node; oracle: every node unseals with a threshold of the currently valid shares, superseded or never-verified shares unseal nothing, sealed nodes serve nothing, every acknowledged canary reads back through every active node; non-trivial = at least one rekey or root-key rotation and at least one change of leadership before the final restart")
+	rec := verifx.NewRecorder("C10", "ha-rotation", "2 or 3 cores on one in-memory store and one in-memory HA lock (Shamir seal with generated shares/threshold, or the stored-key test seal); generated history of canary write / keyring rotation / share-based rekey (legacy or seal-manager, plain, verified, or verification abandoned) / share-less root-key rotation / rotation of the recovery shares (stored-key seal) on the active node, step-down or seal of the active node (leadership moves to a generated standby), stop of a standby (the API refuses to seal one), unseal of a sealed node in place or as a new process, restart of the whole cluster; always ends with a restart of the whole cluster and a tour of the leadership through every node; oracle: every node unseals with a threshold of the currently valid shares, superseded or never-verified shares unseal nothing, sealed nodes serve nothing, every acknowledged canary reads back through every active node; non-trivial = at least one rekey or root-key rotation and at least one change of leadership before the final restart")
 	defer rec.Flush()
 	manualStepDownSleepPeriod = 5 * time.Millisecond
 	maxSteps := verifx.Scale(10, 16)
@@ -716,6 +768,9 @@ func TestVerif_C10_HARotation(t *testing.T) {
 					kw, lw = 5, 1
 				}
 				add(kw, "rekey", "rekey", "rotate-root", "rotate-root", "rotate-keyring")
+				if !w.shamir {
+					add(kw, "rotate-recovery")
+				}
 				if len(w.unsealedStandbys()) > 0 {
 					add(lw, "step-down", "step-down", "step-down", "seal-active", "seal-active")
 					add(1, "stop-standby", "stop-standby")
@@ -735,7 +790,7 @@ func TestVerif_C10_HARotation(t *testing.T) {
 			}
 			a := acts[fairIndex(rt, "action", len(acts))]
 			switch a {
-			case "rekey", "rotate-root", "rotate-keyring":
+			case "rekey", "rotate-root", "rotate-keyring", "rotate-recovery":
 				prev = "key"
 			case "step-down", "seal-active":
 				prev = "lead"
@@ -759,6 +814,10 @@ func TestVerif_C10_HARotation(t *testing.T) {
 				ns := rapid.IntRange(1, 3).Draw(rt, "newShares")
 				nt := c10haThreshold(rt, ns, "newThreshold")
 				w.rekey(flavour, ns, nt)
+			case "rotate-recovery":
+				ns := rapid.IntRange(1, 3).Draw(rt, "newRecoveryShares")
+				nt := c10haThreshold(rt, ns, "newRecoveryThreshold")
+				w.rotateRecovery(ns, nt)
 			case "step-down", "seal-active":
 				sb := w.unsealedStandbys()
 				if len(sb) == 0 {
@@ -811,14 +870,17 @@ func TestVerif_C10_HARotation(t *testing.T) {
 		if w.nFailover > len(w.nodes)-1 {
 			rec.Class("history has a change of leadership before the final restart", 1)
 		}
+		if w.nRecovery > 0 {
+			rec.Class("history has a rotation of the recovery shares (stored-key seal)", 1)
+		}
 		if w.nRestart > 1 {
 			rec.Class("history has a restart of the whole cluster before the final one", 1)
 		}
 		if w.staleLeader {
-			rec.Class("rekey -> leadership to a node that was standby during it", 1)
+			rec.Class("chain:rekey>leader-was-standby-during-it", 1)
 		}
 		if w.chain {
-			rec.Class("rekey -> leadership to a node that was standby during it -> share-less root-key rotation there -> restart", 1)
+			rec.Class("chain:rekey>leader-was-standby-during-it>shareless-root-rotation>restart", 1)
 		}
 	})
 }
